@@ -128,7 +128,15 @@ def analyse(ctx, tool, hs, do_shrink=True):
         else:
             in_domain.append(h)
         cov["evaluations"] += sum(len(s["per"]) * (7 + len(s["reqs"])) for s in h["steps"])
-    bad = HL.model_check(ctx, in_domain)
+    cov["_shard"] = cov.get("_shard", 0) + 1
+    bad, prem = HL.model_check(ctx, in_domain, tag="s%d_" % cov["_shard"])
+    cov["histories_satisfying_all_theorem_premises"] = cov.get("histories_satisfying_all_theorem_premises", 0) + len(prem)
+    for h in prem:
+        # the theorem says model = specification on these; with the correspondence the implementation must be conform
+        fs = HL.Monitor(h).run()
+        if fs:
+            ctx.fail("proof", "a history satisfying every premise of the C06 theorems is not answered as the specification says "
+                     "(theorem, correspondence and monitor disagree)", {"history": HL.strip_exec(h), "failure": fs[0]})
     for h, stepi, namei, comp in bad:
         nm = h["names"][namei]["d"] if namei < len(h["names"]) else "?"
         ctx.fail("correspondence", "model and implementation differ at step %d (%s), DAG %s, component %s"
@@ -140,7 +148,7 @@ def analyse(ctx, tool, hs, do_shrink=True):
 
 
 def run(ctx, replay_inputs=None):
-    ctx.proofs(extra=["Hist/Check.vo"])
+    ctx.proofs(extra=["Hist/Check.vo", "Hist/CheckPrem.vo"])
     tool, out, _ = vlib.go_build("hist", ctx.scratch)
     if tool is None:
         ctx.fail("correspondence", "harness does not build against /repo", {"log": out[-2000:]})
@@ -167,6 +175,7 @@ def run(ctx, replay_inputs=None):
         if ctx.tier == "thorough":
             extracted_sweep(ctx, tool)
     seen = ctx.cov.pop("_seen", set())
+    ctx.cov.pop("_shard", None)
     ctx.cov["distinct_nontrivial"] = len(seen)
     ctx.cov["rule"] = ("operation histories (open/write/close/update/rename/removeold/removeall/touch, 5-40 ops quick, -60/-200 thorough) over 4-6 DAG "
                        "names drawn from {plain, space, dots, shared prefixes a/ab/a.b, _c suffix, glob metacharacters, stamp-like substring}, start stamps "
